@@ -7,7 +7,8 @@ from kv.checks import filter_common as fc
 PID = "C01"
 META = {
     "level": "model_checking",
-    "text": "TLC checks the arm-by-arm transcription of resolve/optimise/filter2idl/search (L2) against the boolean reference "
+    "text": "TLC checks the arm-by-arm transcription of resolve/anchor/optimise/filter2idl/search (L2, the code as repaired by commit "
+            "b91e119; the pre-repair transcription is kept and its divergences are replayed as regression witnesses) against the boolean reference "
             "semantics Match (L1) for every filter of depth<=2/width<=2 over the model alphabet, wrapped and raw, under the stated "
             "index layouts and databases; cases chosen by TLC, every depth<=1 filter and seeded random deeper/wider filters are run "
             "through the real QueryServer (internal_search cold/warm, internal_exists, raw filter2idl) under overridden index "
@@ -53,7 +54,7 @@ def run(tier, replay):
     trans = sum(m["generated"] for m in mcs)
     tot = [sum(c[1][i] for c in census) for i in range(9)]
     if tot[3] != 0:
-        lib.tool_error("model: a divergence outside the two known classes exists (CENSUS unexplained > 0)")
+        lib.tool_error("model: the pre-repair transcription diverges outside its two signed classes (CENSUS unexplained > 0)")
     # vacuity guards: both defect classes and the candidate-set classes are reached in the model
     if not replay and (tot[1] == 0 or tot[5] == 0 or tot[6] == 0 or tot[8] == 0 or (not quick and tot[7] == 0)):
         lib.tool_error(f"model census is vacuous: {tot}")
@@ -95,8 +96,8 @@ def run(tier, replay):
         "samples": lib.sample(searches),
         "exhaustive": True,
         "l2_drift": len([d for d in drift if d[1][1] == PID]),
-        "model_census": {"states": tot[0], "diverging_andnot_isolated": tot[1], "diverging_andnot_partial": tot[2],
-                         "diverging_unexplained": tot[3], "with_defect_signature": tot[4],
+        "model_census": {"states": tot[0], "pre_repair_diverging_andnot_isolated": tot[1], "pre_repair_diverging_andnot_partial": tot[2],
+                         "pre_repair_diverging_unexplained": tot[3], "with_pre_repair_defect_signature": tot[4],
                          "allids": tot[5], "partial": tot[6], "partial_threshold": tot[7], "indexed": tot[8]},
         "mc_shards": [c[0] for c in census],
         "tlc_cases_replayed": len(cases),
@@ -105,8 +106,9 @@ def run(tier, replay):
         "observed_l1_failures": len([1 for _, t in l1 if t[1] == PID]),
         "server_groups": len([l for l in lines if l.startswith('{"a":"reset"')]),
         "trace_states": tstates,
-        "rule": "model: every (filter, wrapper, index layout, database) of the bounded space is one TLC state, L2 search must equal the "
-                "Match scan except in the two signed defect classes and the repaired L2 must equal it everywhere; implementation: every "
+        "rule": "model: every (filter, wrapper, index layout, database) of the bounded space is one TLC state, the L2 search (repaired code) must "
+                "equal the Match scan everywhere, the pre-repair L2 may differ only in its two signed classes (those states are replayed as "
+                "regression witnesses); implementation: every "
                 "logged search / exists result of the real server is compared by TLC with Match on the logged entries",
     }
     R.assumptions = ["index tables mirror the stored entries (C03)",
